@@ -764,7 +764,7 @@ def main():
                 disagreements.append({"case": fn, "ops": lines, "src": "corpus", "at": -1,
                                       "impl": "", "model": ""})
         jobs = []
-        mult = cfg.get("thorough_mult", 30) if tier == "thorough" else cfg.get("quick_mult", 3)
+        mult = cfg.get("thorough_mult", 150) if tier == "thorough" else cfg.get("quick_mult", 3)
         for ci, comp in enumerate(cfg["components"]):
             kind, profiles, ncases, length = comp
             for pi, prof in enumerate(profiles):
